@@ -39,7 +39,10 @@ namespace
             int nt = (int)r.range(2, 4);
             int mode = r.chance(1, 4) ? 1 : 0;
             int memk = (int)r.pick<int64_t>({0, 0, 1, 2, 5, 11});
-            p.cfg = {nt, mode, memk, prog == P_QUEUE && r.chance(1, 3) ? (int64_t)r.range(1, 5) : 0}; // cfg[3]: safe_queue built from an initializer list of (cfg[3]-1) items
+            // cfg[3]: safe_queue built from an initializer list of (cfg[3]-1) items
+            // cfg[4] (wait queues, half of the runs): delegate waiters are in use; bit t+1: thread t's delegate passes the baton on
+            bool delegates = prog == P_WAIT && r.chance(1, 2);
+            p.cfg = {nt, mode, memk, prog == P_QUEUE && r.chance(1, 3) ? (int64_t)r.range(1, 5) : 0, delegates ? (int64_t)(1 + 2 * r.below(16)) : 0};
             // schedule
             Op s = {OP_SCHED};
             if (mode == 0)
@@ -84,7 +87,8 @@ namespace
                     {
                         bool w = r.chance(mostly_wait ? 5 : 1, 6);
                         int64_t hq = two_queues ? (int64_t)r.below(2) : 0;
-                        if (w) p.ops.push_back({OP_ACT, t, 0, r.chance(1, 4) ? 1 : 0, hq});
+                        if (delegates && r.chance(1, 3)) p.ops.push_back({OP_ACT, t, 4, r.chance(1, 4) ? 1 : 0, hq});
+                        else if (w) p.ops.push_back({OP_ACT, t, 0, r.chance(1, 4) ? 1 : 0, hq});
                         else
                         {
                             int kind = r.chance(1, 5) ? 2 : (r.chance(1, 8) ? 3 : 1);
@@ -123,7 +127,7 @@ namespace
                 if (arg(o, 0) != OP_ACT) continue;
                 char b[96];
                 snprintf(b, sizeof b, " T%lld:%s(%lld,%lld)", (long long)mod(arg(o, 1), mod(p.c(0) - 2, 3) + 2),
-                         kn[prog][mod(arg(o, 2), prog == P_QUEUE ? 3 : (prog == P_WAIT ? 4 : 1))], (long long)arg(o, 3), (long long)arg(o, 4));
+                         (prog == P_WAIT && mod(arg(o, 2), 5) == 4 ? "park_delegate" : kn[prog][mod(arg(o, 2), prog == P_QUEUE ? 3 : (prog == P_WAIT ? 5 : 1))]), (long long)arg(o, 3), (long long)arg(o, 4));
                 s += b;
             }
             for (auto &o : p.ops)
@@ -151,6 +155,11 @@ namespace
         int wait_prio[thr::MAXT];
         struct Pending { bool active = false, computed = false; int all = 0; long u = 0; } pend[thr::MAXT];
         bool finished[thr::MAXT];
+        // delegate waiters (model entries 100 + id): selected-but-not-yet-run count, the future each must see, baton kind
+        void *dlg[thr::MAXT];
+        int dlg_sel[thr::MAXT], dlg_kind[thr::MAXT];
+        long dlg_expect[thr::MAXT];
+        uint64_t dlg_wakes = 0, dlg_batons = 0, dlg_refresh = 0;
         long next_u = 1000;
         uint64_t wakes_with_victim = 0, wake_raced = 0;
         // P_QUEUE
@@ -162,6 +171,24 @@ namespace
         int lastseq_seen[thr::MAXT][thr::MAXT]; // [consumer][producer]
         long size_lo[thr::MAXT], size_pf_entry[thr::MAXT], size_popfin_entry[thr::MAXT];
 
+        void take(std::deque<int> &mq, long u)
+        {
+            int v = mq.front();
+            mq.pop_front();
+            if (v >= 100)
+            {
+                int id = v - 100;
+                dlg_sel[id]++;
+                dlg_expect[id] = u;
+                dlg_wakes++;
+                // a baton delegate's handler wakes the next waiter of the same queue before the waker goes on
+                if (dlg_kind[id] == 1 && !mq.empty()) { dlg_batons++; take(mq, 500000 + id); }
+                return;
+            }
+            woken[v] = true;
+            expect[v] = u;
+            if (!thr::blocked_on_condvar(v)) wake_raced++;
+        }
         void compute_victims(int tid)
         {
             Pending &pd = pend[tid];
@@ -170,24 +197,9 @@ namespace
             if (mq.empty()) return;
             wakes_with_victim++;
             if (pd.all)
-            {
-                while (!mq.empty())
-                {
-                    int v = mq.front();
-                    mq.pop_front();
-                    woken[v] = true;
-                    expect[v] = pd.u;
-                    if (!thr::blocked_on_condvar(v)) wake_raced++;
-                }
-            }
+                while (!mq.empty()) take(mq, pd.u);
             else
-            {
-                int v = mq.front();
-                mq.pop_front();
-                woken[v] = true;
-                expect[v] = pd.u;
-                if (!thr::blocked_on_condvar(v)) wake_raced++;
-            }
+                take(mq, pd.u);
         }
 
         Result execute(const Plan &p, Trace &tr) override;
@@ -233,6 +245,15 @@ namespace
         }
         heads[0] = prog == P_WAIT ? prog_head_new() : nullptr;
         heads[1] = prog == P_WAIT ? prog_head_new() : nullptr;
+        dlg_wakes = dlg_batons = dlg_refresh = 0;
+        const bool delegates = prog == P_WAIT && mod(p.c(4, 0), 2) == 1;
+        for (int i = 0; i < thr::MAXT; i++)
+        {
+            dlg_sel[i] = 0;
+            dlg_expect[i] = 0;
+            dlg_kind[i] = (int)(mod(p.c(4, 0), 64) >> (i + 1)) & 1;
+            dlg[i] = delegates && i < nt ? prog_delegate_new(i, dlg_kind[i]) : nullptr;
+        }
         preload = prog == P_QUEUE ? (int)mod(p.c(3), 6) : 0;
         q = prog == P_QUEUE ? (preload ? prog_queue_new_preloaded(nt, preload - 1) : prog_queue_new()) : nullptr;
         if (preload)
@@ -259,8 +280,15 @@ namespace
                     }
                     else if (prog == P_WAIT)
                     {
-                        int k = (int)mod(a.kind, 4);
-                        if (k == 0)
+                        int k = (int)mod(a.kind, 5);
+                        if (k == 4)
+                        {
+                            if (!dlg[t]) continue;
+                            thr::api_enter();
+                            prog_delegate_park(dlg[t], heads[mod(a.b, 2)], (int)mod(a.a, 2));
+                            thr::api_exit();
+                        }
+                        else if (k == 0)
                         {
                             wait_head[t] = (int)mod(a.b, 2);
                             if (wait_head[t]) probe("second_wait_queue");
@@ -333,7 +361,7 @@ namespace
                     bool all = true;
                     for (int t = 0; t < nt; t++)
                         if (!finished[t]) all = false;
-                    if (all) break;
+                    if (all && mqs[0].empty() && mqs[1].empty()) break; // (delegates still parked are woken by one more round)
                     for (int hq = 0; hq < 2; hq++)
                     {
                         long u = next_u++;
@@ -400,6 +428,14 @@ namespace
                     res.detail = "queue holds " + std::to_string(left) + " items, pushed " + std::to_string(pushes_finished) + " popped " + std::to_string(pops_finished);
                 }
             }
+            if (prog == P_WAIT)
+                for (int i = 0; i < nt; i++)
+                    if (dlg_sel[i] != 0)
+                    {
+                        res.violation = true;
+                        res.sig = "C20/delegate-wake-lost";
+                        res.detail = "delegate waiter " + std::to_string(i) + " was selected by a wake but its handler never ran";
+                    }
             if (prog == P_WAIT && (!mqs[0].empty() || !mqs[1].empty()))
             {
                 res.violation = true;
@@ -408,6 +444,14 @@ namespace
             }
         }
         // after an aborted run the structures may still reference frames of abandoned threads: leak them
+        for (int i = 0; i < thr::MAXT; i++)
+        {
+            if (dlg[i] && !res.violation) prog_delegate_delete(dlg[i]);
+            dlg[i] = nullptr;
+        }
+        if (dlg_wakes) probe("delegate_waiter_woken", dlg_wakes);
+        if (dlg_batons) probe("handler_woke_next_waiter", dlg_batons);
+        if (dlg_refresh) probe("delegate_refreshed_its_place", dlg_refresh);
         if (heads[0] && !rr.violation) { prog_head_delete(heads[0]); prog_head_delete(heads[1]); }
         if (q && !rr.violation) prog_queue_delete(q);
         heads[0] = heads[1] = q = nullptr;
@@ -521,6 +565,29 @@ extern "C"
             }
             W->compute_victims(t);
         }
+    }
+    void h_delegate_parking(int id, int prio, void *head)
+    {
+        // called under the system lock, right before the node is moved
+        int hq = head == W->heads[1] ? 1 : 0;
+        for (int q = 0; q < 2; q++)
+            for (size_t i = 0; i < W->mqs[q].size(); i++)
+                if (W->mqs[q][i] == 100 + id)
+                {
+                    W->mqs[q].erase(W->mqs[q].begin() + (long)i);
+                    W->dlg_refresh++;
+                    break;
+                }
+        if (prio) W->mqs[hq].push_front(100 + id);
+        else W->mqs[hq].push_back(100 + id);
+        thr::note("model-enqueue delegate %d prio=%d queue=%d", id, prio, hq);
+    }
+    void h_delegate_woken(int id, long fut)
+    {
+        if (id < 0 || id >= thr::MAXT || W->dlg_sel[id] <= 0)
+            fail("C20/delegate-woken-unselected", "the handler of delegate waiter %d ran although no wake selected it (woken twice, or woken while not parked); future=%ld", id, fut);
+        W->dlg_sel[id]--;
+        if (fut != W->dlg_expect[id]) fail("C20/wrong-future", "delegate waiter %d was woken with future %ld, the wake that selected it carried %ld", id, fut, W->dlg_expect[id]);
     }
     void h_wake_end(void)
     {
